@@ -370,7 +370,13 @@ function newRun(job, resp, side) {
       },
     });
     R.nsObject = ns;
-    Object.defineProperty(g, '_ddiast', { value: ns, writable: true, enumerable: false, configurable: true });
+    if (job.ddiast === 'late') {
+      // the tracer installs its hooks AFTER the file was loaded: the file's own prologue has to provide the
+      // hook object first; finish() then puts the recording hooks into that object, as the tracer would
+      R.lateNs = { ns, names: Array.from(configured) };
+    } else {
+      Object.defineProperty(g, '_ddiast', { value: ns, writable: true, enumerable: false, configurable: true });
+    }
   }
 
   // entry lookup through the global scope (also sees top-level let/const/class of scripts)
@@ -446,6 +452,16 @@ function classify(R, e) {
 // After the text has been evaluated: call the entry (if any) and compute the outcome.
 async function finish(R, completion) {
   try {
+    if (R.lateNs) {
+      try {
+        const d = Object.getOwnPropertyDescriptor(R.sandbox, '_ddiast');
+        let obj = d && 'value' in d ? d.value : undefined;
+        R.lateFound = obj !== undefined && obj !== null;
+        if (!R.lateFound) { obj = {}; Object.defineProperty(R.sandbox, '_ddiast', { value: obj, writable: true, enumerable: false, configurable: true }); }
+        R.nsObject = obj;
+        for (const name of R.lateNs.names) obj[name] = R.lateNs.ns[name];
+      } catch (e) { /* a frozen / exotic hook object: leave it */ }
+    }
     let fn;
     try { fn = R.entry ? lookupEntry(R) : undefined; } catch (e) { fn = undefined; }
     let value = completion;
@@ -571,7 +587,7 @@ async function runOne(job, resp, side) {
         const d = Object.getOwnPropertyDescriptor(R.sandbox, '_ddiast');
         same = !!(d && 'value' in d && d.value === R.nsObject);
       } catch (e) { /* ignore */ }
-      res.ddiast = { exists: true, keys: [], preserved: same };
+      res.ddiast = { exists: true, keys: [], preserved: same, late_found: !!R.lateFound };
     }
   }
   res.outcome = outcome;
